@@ -1,4 +1,5 @@
 import L21.Props.C14
+import L21.Props.C14RT
 #print axioms L21.RawProto.c14_rect_roundtrip
 #print axioms L21.RawProto.c14_rect_second_trip
 #print axioms L21.RawProto.c14_rect_same_region
@@ -10,3 +11,5 @@ import L21.Props.C14
 #print axioms L21.RawProto.c14_undefined_reference
 #print axioms L21.RawProto.c14_missing_fields
 #print axioms L21.RawProto.c14_layerless_shapes
+#print axioms L21.RawProto.c14_elements_roundtrip
+#print axioms L21.RawProto.c14_layout_roundtrip
